@@ -317,7 +317,8 @@ def run_oversub(payload):
     def decide(problem, idx):
         enc = problem.goals[nhard:]
         if len(enc) != len(soft):
-            return "INTERNAL_ERROR"      # an encoded goal was dropped: generator contract broken
+            masks.append("m?")           # not an exact-subset encoding: the query cannot be identified; just search
+            return None
         m = mask_of([e is g for e, g in zip(enc, soft)])
         masks.append(m)
         return script.get(m)
